@@ -20,7 +20,7 @@ from cv.trace import validate_trace
 LEVEL = "model_checking"
 
 
-def build(rng, exports, system, nt, ntv, weak=False, soft=False, aniso=False):
+def build(rng, exports, system, nt, ntv, weak=False, soft=False, aniso=False, shearshear=False):
     from cij.util import c_
     from cij.core.calculator import Calculator, CijVolumeBaseInterface
     while True:
@@ -50,7 +50,16 @@ def build(rng, exports, system, nt, ntv, weak=False, soft=False, aniso=False):
             u = rng.uniform(0.9, 1.1, 9)
             vals = dict(zip(ORTHO9, (120 * u[0], 420 * u[1], 300 * u[2], 160 * u[3], 50 * u[4], 60 * u[5], 80 * u[6], 70 * u[7], 90 * u[8])))
             base = {k: vals.get(k, 0.0) for k in KEYS21}
-        comp = {k: base[k] * field * (1.0 + (0.0 if (weak or soft or aniso) else 0.01) * rng.normal(size=(nt, ntv))) for k in keys}
+        if shearshear:
+            # shear-shear coupling only (c45, c46, c56 in any combination) next to the nine orthotropic components and NO coupling between
+            # normal and shear strains: the 6x6 matrix is block diagonal, but its shear block is not diagonal
+            iso = isotropic_plus(exports["cubic"], rng, 0.0)
+            base = {k: iso[k] for k in KEYS21}
+            extra = [k for k in ((4, 5), (4, 6), (5, 6)) if rng.random() < 0.6] or [(4, 6)]
+            for k in extra:
+                base[k] = base[(4, 4)] * float(rng.uniform(0.15, 0.4)) * float(rng.choice([-1.0, 1.0]))
+            keys = list(ORTHO9) + extra
+        comp = {k: base[k] * field * (1.0 + (0.0 if (weak or soft or aniso or shearshear) else 0.01) * rng.normal(size=(nt, ntv))) for k in keys}
         C = numpy.zeros((nt, ntv, 6, 6))
         for (i, j), a in comp.items():
             C[:, :, i - 1, j - 1] = a
@@ -211,12 +220,15 @@ def main(ctx, replay=None):
     G = consts.RY_BOHR3_TO_GPA
     stub_ok = True
     for system in fillspec.SYSTEMS:
-        for fi in range(nfields if stub_ok else 0):
+        # (the free system gets extra fields: shear-shear coupling without normal-shear coupling)
+        for fi in range((nfields + (3 if system == "triclinic" else 0)) if stub_ok else 0):
             nt, ntv = int(rng.integers(2, 5)), int(rng.integers(3, 7))
             soft = bool(fi == 0 and system in ("orthorhombic", "monoclinic", "triclinic"))
             aniso = bool(fi == 1 and system in ("orthorhombic", "monoclinic", "triclinic"))
+            shearshear = bool(system == "triclinic" and fi >= nfields)
             try:
-                stub, vb, C, pd, keys, v = build(rng, exports, system, nt, ntv, weak=(fi == nfields - 1 and system not in ("cubic", "orthorhombic")), soft=soft, aniso=aniso)
+                stub, vb, C, pd, keys, v = build(rng, exports, system, nt, ntv, weak=(fi == nfields - 1 and system not in ("cubic", "orthorhombic")), soft=soft, aniso=aniso,
+                                                 shearshear=shearshear)
             except StubUnavailable as ex:
                 stub_ok = False
                 ctx.cov["injected_field_path"] = f"unavailable: {ex}"
@@ -227,6 +239,14 @@ def main(ctx, replay=None):
                               {"system": system, "clause": "raises"})
                 continue
             case = {"system": system, "keys": ["%d%d" % k for k in keys], "mass": stub.elast_data.cellmass}
+            if fi % 2 == 1:
+                # the isothermal constants are read by attribute BEFORE any average is asked for (the averages are those of the adiabatic tensor)
+                case["isothermal_attributes_read_first"] = True
+                for k in keys:
+                    try:
+                        getattr(vb, "c%d%dt" % k)
+                    except Exception:
+                        pass
             ctx.count(case)
             sig = {"system": system}
             assess(ctx, forms, system, vb, C, pd, v, stub.elast_data.cellmass, case, sig, records, soft)
